@@ -25,6 +25,8 @@ class FakeWriter:
 
     # --- asyncio.StreamWriter surface used by gallia
     def write(self, data: bytes) -> None:
+        if getattr(self, "_eof_sent", False) and not self._closed:
+            raise RuntimeError("Cannot call write() after write_eof()")
         if self._closed:
             return
         self.wire.out.append((now_ms(), bytes(data)))
@@ -45,12 +47,25 @@ class FakeWriter:
         if self.wire.lost:
             raise ConnectionResetError("Connection lost")
 
+    def can_write_eof(self) -> bool:
+        return True
+
+    def write_eof(self) -> None:
+        # half-close (shutdown(SHUT_WR)): the peer sees end-of-stream behind what was written, reading goes on
+        if self._closed or getattr(self, "_eof_sent", False):
+            return
+        self._eof_sent = True
+        self.wire.client_closed_at = now_ms()
+        if self.wire.on_client_close is not None:
+            self.wire.on_client_close()
+
     def close(self) -> None:
         if not self._closed:
             self._closed = True
-            self.wire.client_closed_at = now_ms()
-            if self.wire.on_client_close is not None:
-                self.wire.on_client_close()
+            if not getattr(self, "_eof_sent", False):
+                self.wire.client_closed_at = now_ms()
+                if self.wire.on_client_close is not None:
+                    self.wire.on_client_close()
             # like the selector transport: connection_lost() is delivered by call_soon
             try:
                 asyncio.get_running_loop().call_soon(self.wire._mark_lost)
